@@ -122,7 +122,7 @@ var initDeny = map[string]bool{
 	"mime/multipart": true, "compress/flate": true, "compress/gzip": true, "encoding/json": true,
 	"encoding/asn1": true, "crypto/ecdsa": true, "crypto/elliptic": true, "crypto/ed25519": true,
 	"crypto/sha256": true, "crypto/sha512": true, "crypto": true, "testing": true, "os/exec": true,
-	"internal/testlog": true, "io/fs": false, "path/filepath": true, "regexp": false, "regexp/syntax": false,
+	"internal/testlog": true, "io/fs": false, "internal/oserror": false, "path/filepath": true, "regexp": false, "regexp/syntax": false,
 	"unicode": false, "net/url": false, "net/textproto": false, "crypto/internal/fips140": true,
 }
 
